@@ -6,7 +6,7 @@ from fv.props import util
 from fv.model import get_model
 
 RULE = ("expression trees over all intrinsic + defined operators in both spellings with operands of every kind: "
-        "bounded-exhaustive over operator classes to depth 2 (quick) / 3 (thorough), all spellings at depth 1, random to depth 6/7, "
+        "bounded-exhaustive over operator classes to depth 2, every top constructor over sampled operands from the complete depth-2 set (depth 3: 2.2e7 trees, sampled), all spellings at depth 1, random to depth 6/7, "
         "rendered with minimal (+ a few redundant) parentheses and random spacing; plus a malformed token stream; plus the same "
         "expressions as Assignment_Stmt right-hand sides of full programs. Two comparisons per case: real tree == model tree "
         "(correspondence of Fp.Expr) and real tree == generated grouping (the property). non-trivial = depth >= 2")
@@ -49,6 +49,8 @@ def _mk_cases(case):
     k = case["stream"]
     if k == "wide":
         return wide_cases(rng, case["n"])
+    if k == "enum3":
+        return CE.enum3_cases(rng, case["n"])
     if k == "enum":
         cs = CE.enum_cases(case["depth"])
         return cs[case["lo"]:case["hi"]]
@@ -126,17 +128,13 @@ def run_case(case):
 
 def cases(tier, seed):
     out = []
-    d = 2 if tier != "thorough" else 3
-    total = len(CE.enum_cases(2)) if d == 2 else None
-    if d == 2:
-        step = 400
-        for lo in range(0, total, step):
-            out.append({"stream": "enum", "depth": 2, "lo": lo, "hi": lo + step, "seed": 0})
-    else:
-        total = len(CE.enum_cases(3))
-        step = 4000
-        for lo in range(0, total, step):
-            out.append({"stream": "enum", "depth": 3, "lo": lo, "hi": lo + step, "seed": 0, "_timeout": 900})
+    total = len(CE.enum_cases(2))
+    step = 400
+    for lo in range(0, total, step):
+        out.append({"stream": "enum", "depth": 2, "lo": lo, "hi": lo + step, "seed": 0})
+    # depth 3 has 2.2e7 trees: sampled (every top constructor over the complete depth-2 set)
+    for i, s in enumerate(util.seeds(seed, util.tier_n(tier, 2, 60), 36)):
+        out.append({"stream": "enum3", "seed": s, "n": 600, "_timeout": 900})
     nb = util.tier_n(tier, 16, 100)
     for i, s in enumerate(util.seeds(seed, nb, 3)):
         out.append({"stream": "random", "seed": s, "n": 400, "depth": 6 if i % 2 else 7, "std": "f2008" if i % 3 else "f2003"})
